@@ -570,7 +570,29 @@ class Schema(ResolverMap):
             },
         )
 
-        cloned.merge_resolvers(self)
+        # The cloned fields and types already carry their resolvers; the
+        # registry is carried over without the entries of members which have
+        # been removed (e.g. by an earlier transform) and with the defaults.
+        def known(typename: str, fieldname: str) -> bool:
+            type_ = cloned.types.get(typename)
+            return (
+                isinstance(type_, ObjectType) and fieldname in type_.field_map
+            )
+
+        cloned.resolvers = {
+            typename: {f: r for f, r in entries.items() if known(typename, f)}
+            for typename, entries in self.resolvers.items()
+        }
+        cloned.subscriptions = {
+            typename: {f: r for f, r in entries.items() if known(typename, f)}
+            for typename, entries in self.subscriptions.items()
+        }
+        cloned.default_resolver = self.default_resolver
+        cloned.default_resolvers = {
+            typename: resolver
+            for typename, resolver in self.default_resolvers.items()
+            if typename in cloned.types
+        }
 
         return cloned
 
